@@ -135,6 +135,9 @@ pub struct History {
     pub valid_only: bool,
     pub ctor: Ctor,
     pub ops: Vec<Op>,
+    /// Some: the case is a history on a giant array of `()` instead (props/gianthist.rs)
+    #[serde(default)]
+    pub giant: Option<super::gianthist::GiantHist>,
 }
 
 #[derive(Clone, Copy, PartialEq, Eq, Debug)]
@@ -1484,5 +1487,5 @@ pub fn history(elems: &'static [(u32, ElemKind)], valid_only_p: f64, max_ops: us
     let elem = proptest::sample::select(elems.iter().flat_map(|(w, k)| std::iter::repeat(*k).take(*w as usize)).collect::<Vec<_>>());
     let leak = (any::<bool>(), ix_valid(), 0u8..4, 0u8..4).prop_map(|(row, at, front, back)| Op::LeakDrain { row, at, front, back });
     let one = (op(), prop::bool::weighted(fault_p), 0u8..12, prop::bool::weighted(fault_p / 2.0), leak).prop_map(|(op, f, k, l, leak)| if f { Op::Faulted { op: Box::new(op), k } } else if l { leak } else { op });
-    (elem, prop::bool::weighted(valid_only_p), prop_oneof![30 => ctor(6), 1 => ctor(40)], prop::collection::vec(one, 0..max_ops)).prop_map(|(elem, valid_only, ctor, ops)| History { elem, valid_only, ctor, ops })
+    (elem, prop::bool::weighted(valid_only_p), prop_oneof![30 => ctor(6), 1 => ctor(40)], prop::collection::vec(one, 0..max_ops)).prop_map(|(elem, valid_only, ctor, ops)| History { elem, valid_only, ctor, ops, giant: None })
 }
